@@ -17,12 +17,12 @@ Theorem C18_refines :
     wf t -> in_domain ops t -> ~ Known ops t ->
     run (M_step p_rename x_dir_copy x_move_dir) ops t = run S_step ops t.
 Proof. exact refines. Qed.
-(* the same with the four classes named: F15, cp onto itself, parents left behind by a failing
-   operation on a name written as a directory, mv into a directory that has the name *)
+(* the same with the three classes named: F15, parents left behind by a failing operation on a
+   name written as a directory, mv into a directory that has the name *)
 Theorem C18_refines_classes :
   forall (p_rename x_dir_copy x_move_dir : path -> path -> tree -> pres) ops t,
     wf t -> in_domain ops t ->
-    ~ KnownF15 ops t -> ~ KnownCpSelf ops t -> ~ KnownPartialParents ops t -> ~ KnownMvNoClobber ops t ->
+    ~ KnownF15 ops t -> ~ KnownPartialParents ops t -> ~ KnownMvNoClobber ops t ->
     run (M_step p_rename x_dir_copy x_move_dir) ops t = run S_step ops t.
 Proof. exact refines_classes. Qed.
 (* the reference model keeps a tree a tree (everything above an entry is a directory) *)
@@ -52,7 +52,7 @@ Theorem C18_laws :
      stat a t' = Some (File c) /\ stat b t' = Some (File c) /\ is_dir_at t' (parent (pk b)) = true /\
      (forall q, ~ q `prefix_of` pk b -> t' !! q = t !! q)) /\
   (* moving a file = copy then delete; into the target when that is an existing directory *)
-  (forall a b c t, stat a t = Some (File c) -> p_is_dir b t = false -> ends_sep b = false ->
+  (forall a b c t, stat a t = Some (File c) -> p_is_dir b t = false -> ends_sep b = false -> pk a <> pk b ->
      S_mv a b t = (let '(o, t1) := S_cp a b t in
                    match o with OVal _ => S_rm None [a] t1 | _ => (OErr, t) end)) /\
   (forall a b name t, p_is_dir b t = true -> last (pk a) = Some name ->
@@ -87,13 +87,12 @@ Theorem C18_F15_refuted :
   (exists t', last (run S_step ops ∅) = Some (OVal s_true, t') /\ t' !! [[116%N]] = Some (File [120%N]) /\
               t' !! [[116%N]; [102%N]] = None /\ t' !! [[102%N]] = None).
 Proof. exact F15_witness. Qed.
-Theorem C18_cp_self_refuted :
-  forall prn xdc xmd,
-  let ops := [WriteB w_f [120%N]; Cp w_f w_f] in
-  in_domain ops ∅ /\ KnownCpSelf ops ∅ /\
-  (exists t', last (run (M_step prn xdc xmd) ops ∅) = Some (OVal s_true, t') /\ t' !! [[102%N]] = Some (File [])) /\
-  (exists t', last (run S_step ops ∅) = Some (OVal s_true, t') /\ t' !! [[102%N]] = Some (File [120%N])).
-Proof. exact cp_self_witness. Qed.
+(* cp of a file onto itself (F20, repaired): an error that changes nothing, in the commands and in
+   the reference tree, however the target is written as long as it resolves to the same entry *)
+Theorem C18_cp_self_error :
+  forall xdc a b c t, stat a t = Some (File c) -> pk b = pk a -> ptr b = false ->
+    M_cp xdc a b t = (OErr, t) /\ S_cp a b t = (OErr, t).
+Proof. exact cp_self_error. Qed.
 Theorem C18_partial_parents_refuted :
   forall prn xdc xmd,
   let ops := [WriteB w_nx [113%N]] in
